@@ -21,6 +21,10 @@ Inductive impl_prog :=
 
 Inductive case :=
 | CTpl (p : pt) (e : env) (sym_impl : option Q) (prog : impl_prog)
+| CTwin (cmp_sym : bool) (p : pt) (e : env) (sym_impl : option Q) (prog : impl_prog)
+    (* the same observation as a CTpl case, judged by check_corr ONLY (check_spec = true): emitted by the harness a second
+       time for every input inside the class of a known finding, so that a change of behaviour inside such a class (where
+       check_spec fails before and after, and the check files the case under the finding) still breaks the correspondence *)
 | CRange (a b s : Z) (impl : list Z)     (* ParametrizedRange(a, b, s).to_range({}) as a list; s <> 0 *)
 | CCrash.
 
@@ -57,41 +61,58 @@ Definition sym_matches (p : pt) (e : env) (sym_impl : option Q) : bool :=
   | Ok v => oq_eqb sym_impl (Some (time_of v))
   end.
 
+(* model-side bookkeeping (NOT used by check_spec): the operational model classifies the case as "float arithmetic takes
+   part in the instantiation".  check_corr demands that the specification's static scope analysis (Spec.scope_prog /
+   scope_sym) never judges such a case: scope ⊆ exactness of the model (also proved: C04_scope_*_sound) *)
+Definition model_inexact_prog (p : pt) (e : env) : bool :=
+  match cp real (resolve idf p) e with Inexact => true | _ => false end.
+Definition model_inexact_sym (p : pt) (e : env) : bool :=
+  match sym p (decimalize e) with Inexact => true | _ => false end.
+Definition scope_consistent (p : pt) (e : env) : bool :=
+  implb (scope_prog p e) (negb (model_inexact_prog p e)) && implb (scope_sym p e) (negb (model_inexact_sym p e)).
+
+(* the program side: the model's create_program predicts the implementation's three durations *)
+Definition corr_prog (p : pt) (e : env) (prog : impl_prog) : bool :=
+  (* an error is always an acceptable answer where the template denotes no duration (den = None), and where a
+     parameter is missing *)
+  match (if miss_pt [] e p then None      (* sympy may simplify the missing name away (t - t = 0): nothing compared *)
+         else match prog with
+              | IErr _ => match den p (qenv_of e) with None => None | Some _ => Some tt end
+              | _ => Some tt
+              end) with
+  | None => true
+  | Some _ =>
+  match cp real (resolve idf p) e with
+  | Inexact => true
+  | Err k => match prog with IErr k' => errclass_eqb (class_of k) k' | _ => false end
+  | Ok kids =>
+      (* an empty program counts as zero: None and a program whose three durations are 0 are the same observation *)
+      let model := match kids with
+                   | [] => (0, Some 0, 0)
+                   | _ => (total kids, to_wf (Node 1 kids), sum_pieces 1 (Node 1 kids))
+                   end in
+      match model, prog with
+      | (ma, mb, mc), IProg a b c => Qeq_bool a ma && oq_eqb b mb && Qeq_bool c mc
+      | (ma, mb, mc), INone => Qeq_bool 0 ma && oq_eqb (Some 0) mb && Qeq_bool 0 mc
+      | _, IErr _ => false
+      end
+  end end.
+
 Definition check_corr (c : case) : bool :=
   match c with
   | CTpl p e sym_impl prog =>
-      (* an error is always an acceptable answer where the template denotes no duration (den = None), and where a
-         parameter is missing *)
-      match (if miss_pt [] e p then None      (* sympy may simplify the missing name away (t - t = 0): nothing compared *)
-             else match prog with
-                  | IErr _ => match den p (qenv_of e) with None => None | Some _ => Some tt end
-                  | _ => Some tt
-                  end) with
-      | None => true
-      | Some _ =>
-      match cp real (resolve idf p) e with
-      | Inexact => true
-      | Err k => match prog with IErr k' => errclass_eqb (class_of k) k' | _ => false end
-      | Ok kids =>
-          (* an empty program counts as zero: None and a program whose three durations are 0 are the same observation *)
-          let model := match kids with
-                       | [] => (0, Some 0, 0)
-                       | _ => (total kids, to_wf (Node 1 kids), sum_pieces 1 (Node 1 kids))
-                       end in
-          match model, prog with
-          | (ma, mb, mc), IProg a b c => Qeq_bool a ma && oq_eqb b mb && Qeq_bool c mc
-          | (ma, mb, mc), INone => Qeq_bool 0 ma && oq_eqb (Some 0) mb && Qeq_bool 0 mc
-          | _, IErr _ => false
-          end
-      end end
+      corr_prog p e prog
       && (* the symbolic value is compared only where the template denotes a duration at all *)
          match den p (qenv_of e) with Some _ => sym_matches p e sym_impl | None => true end
+      && scope_consistent p e
+  | CTwin cmp_sym p e sym_impl prog =>
+      (* inside a finding class the model IS the description of the finding: program side always, symbolic side unless
+         the harness switches it off (near-integer for-loop bounds: the floor form of the code and the ceiling form of
+         the model differ off the integers) *)
+      corr_prog p e prog && (if cmp_sym then miss_pt [] e p || sym_matches p e sym_impl else true)
   | CRange a b s impl => list_eqb Z.eqb (zrange a b s) impl
   | CCrash => false
   end.
-
-Definition excluded (c : case) : bool :=     (* float arithmetic takes part in a duration of the instantiated program *)
-  match c with CTpl p e _ _ => match cp real (resolve idf p) e with Inexact => true | _ => false end | _ => false end.
 
 Fixpoint arith_seq_from (k : nat) (a s : Z) (l : list Z) : bool :=
   match l with
@@ -99,27 +120,35 @@ Fixpoint arith_seq_from (k : nat) (a s : Z) (l : list Z) : bool :=
   | x :: t => (x =? a + Z.of_nat k * s)%Z && arith_seq_from (S k) a s t
   end.
 
+(* The judgement uses Spec.v only: `den` (the denoted duration) and the static scope analysis scope_prog / scope_sym
+   (which inputs are exact numbers).  No function of Model.v that mirrors code is called here (the shared `expr`/`pt`
+   syntax, `time_of`, `decimalize` = "a float parameter stands for its shortest decimal", `zrange` = Python's range by
+   its defining loop, and `qenv_of` are the vocabulary of the specification). *)
 Definition check_spec (c : case) : bool :=
   match c with
   | CTpl p e sym_impl prog =>
-      if excluded c then true else
-      let sym_exact := match sym p (decimalize e) with Ok _ => true | _ => false end in
+      if negb (scope_prog p e) then true else      (* binary float arithmetic could take part in the instantiation *)
+      let judge_sym := scope_sym p e in
+      (* the symbolic duration must be the number x; "no rational value" is acceptable only for an expression that
+         divides by a zero step somewhere (Spec.zero_step) *)
+      let sym_is (x : Q) := match sym_impl with Some s => Qeq_bool s x | None => zero_step (qenv_of e) p end in
       match den p (qenv_of e) with
       | None =>
           (* no meaningful duration: nothing is demanded except that the reported numbers do not contradict each other *)
           match prog with
           | IErr _ => true
-          | INone => if sym_exact then oq_eqb sym_impl (Some 0) else true
-          | IProg a b c => oq_eqb b (Some a) && Qeq_bool a c && (if sym_exact then oq_eqb sym_impl (Some a) else true)
+          | INone => if judge_sym then sym_is 0 else true
+          | IProg a b c => oq_eqb b (Some a) && Qeq_bool a c && (if judge_sym then sym_is a else true)
           end
       | Some d =>
-          let symok := if sym_exact then oq_eqb sym_impl (Some d) else true in
+          let symok := if judge_sym then sym_is d else true in
           match prog with
           | IErr _ => true
           | INone => Qeq_bool d 0 && symok
           | IProg a b c => Qeq_bool a d && oq_eqb b (Some d) && Qeq_bool c d && symok
           end
       end
+  | CTwin _ _ _ _ _ => true
   | CRange a b s impl =>
       match s with
       | Z0 => true
